@@ -150,8 +150,12 @@ def run(pid, tier):
     d = vlib.workdir("mutualclose-%s" % tier)
     cov = {"legs": {}}
 
-    # ---- leg A: the model
-    a, hyps = leg_a(tier, d)
+    # ---- leg A: the model (VERIF_C07_SKIP_A=1: mutation self-tests of the binding only - the model does not
+    # depend on the code under test)
+    if os.environ.get("VERIF_C07_SKIP_A") == "1":
+        a, hyps = {"states": 0, "distinct": 0, "depth": 0, "wall_s": 0.0}, {}
+    else:
+        a, hyps = leg_a(tier, d)
     cov["legs"]["A_model"] = {"KS": TIERS[tier]["KS"], "KR": TIERS[tier]["KR"], "mags": TIERS[tier]["mags"],
                               "states": a["states"], "distinct": a["distinct"], "depth": a["depth"],
                               "model_signs_what_reference_refuses": hyps, "wall_s": round(a["wall_s"], 1)}
